@@ -283,7 +283,7 @@ def run_shard(spec, ctx):
                                                         and len(pic) * len(pic[0]) <= 12
                                                         and case["mag"] in ("tiny", "10bit", "2^15")))
 
-        run_given(case_strategy(), body, ctx, ctx.pick(500, 14000))
+        run_given(case_strategy(), body, ctx, ctx.pick(500, 24000))
     else:
         raise ValueError(spec)
 
